@@ -15,9 +15,9 @@ from props import state_tie as ST
 PID = 'C12'
 GENERATORS = FC.GENERATORS
 META = {
-    'text': 'Coq theorems: the Priority.max regenerated from tools/submit.py is a lattice with order NOW>CREW>DOING>TODO (any argument list); a submission is refused unless the pipeline is active; a poller that returns while still the active wait saw its condition; every done() callback gives its poller handle back (the repaired stale-handle defect); every submission at an active pipeline fires at once (NOW) or arms a live poller of the strongest priority. The headline (every waiter fire accepted at a moment its condition holds) is refuted by two machine-checked witnesses = the two open findings. Correspondence: real FSM waiters with case-scheduled poller iterations and callbacks vs the model, plus a property oracle on the real observations.',
-    'note': 'Trusted: Coq kernel; priority2coq.py and dot2coq.py (validated each run); hand-written Model/Fsm.v tied by correspondence; fakes for deferToThread/time.sleep/reactor only. Real thread timing is represented by interleavings of atomic steps. No axioms.',
-    'technique': 'Coq proof over source-generated definitions + refutation witnesses + model/implementation correspondence with case-controlled interleaving',
+    'text': 'Coq theorems: the Priority.max regenerated from tools/submit.py is a lattice with order NOW>CREW>DOING>TODO (any argument list); a submission is refused unless the pipeline is active; a poller that returns while still the active wait saw its condition; every done() callback gives its poller handle back (the repaired stale-handle defect); every submission at an active pipeline fires at once (NOW) or arms a live poller of the strongest priority. The headline (every waiter fire accepted at a moment its condition holds) is refuted by two machine-checked witnesses = the two open findings. Correspondence: real FSM waiters with case-scheduled poller iterations and callbacks vs the model, plus a property oracle on the real observations. Source tie: the bodies of set_submit_info, submit_crossroads, wait_for_crew/doing/todo/nothing, their done() callbacks, waiting_on_* and the loop tests of is_*_done are regenerated from pl/state.py on every run (state2coq.py -> Gen/StateGen.v) and PROVED equal to the functions of Model/Fsm.v (C12_*_is_source, ghost log entry explicit).',
+    'note': 'Trusted: Coq kernel; priority2coq.py, dot2coq.py and state2coq.py (validated each run; state2coq.py by 504 single method calls on a real FSM object with attributes set one by one); Model/Fsm.v tied by translation + proof for the method bodies and by correspondence for the machine (transitions.Machine, event enabledness); fakes for deferToThread/time.sleep/reactor only. Real thread timing is represented by interleavings of atomic steps. No axioms.',
+    'technique': 'Coq proof over source-generated definitions (Priority.max, FSM method bodies proved equal to the model) + refutation witnesses + model/implementation correspondence with case-controlled interleaving',
 }
 
 NAMES = ['NOW', 'CREW', 'DOING', 'TODO']
@@ -231,7 +231,7 @@ def run(ctx):
     ctx.trust(
         'translator tools/translate/priority2coq.py (Priority enum + max; fail closed; validated below on every argument list of length <= 3)',
         'translator tools/translate/dot2coq.py (transition table used by the model)',
-        'hand-written Model/Fsm.v (waiters, crossroads, pollers) tied to the code by the event-by-event correspondence',
+        'Model/Fsm.v (waiters, crossroads, pollers): method bodies proved equal to the translation of pl/state.py (Proofs/StateGenEq.v); the machine around them (Event.trigger, when a poller/callback may run) tied by the event-by-event correspondence',
         'driver fakes: deferToThread -> case-scheduled poller object (one loop-condition evaluation per Poll event: time.sleep raises), reactor callbacks run at DoneCb events',
     )
     ctx.assume(
